@@ -66,6 +66,7 @@ class Branch:
         self.consume_idx: int | None = None
         self.rec_calls: list[ast.Call] = []
         self.inline_guard = False
+        self.impure: list[tuple[str, str]] = []  # precedence variables that are not the table entry itself
         for i, st in enumerate(body):
             for n in ast.walk(st):
                 if isinstance(n, ast.Subscript) and ast.unparse(n.value).endswith(table) and isinstance(n.ctx, ast.Load):
@@ -76,6 +77,8 @@ class Branch:
                     self.rec_calls.append(n)
             if isinstance(st, ast.Assign) and any(r in list(ast.walk(st.value)) for r in self.reads):
                 t = st.targets[0]
+                if not any(st.value is r for r in self.reads):
+                    self.impure.append((ast.unparse(t), ast.unparse(st.value)))
                 if isinstance(t, ast.Name):
                     self.prec_vars.add(t.id)
                 elif isinstance(t, ast.Tuple) and t.elts and all(isinstance(e, ast.Name) for e in t.elts):
